@@ -221,6 +221,59 @@ def border_only(rng, shape, dtype):
     return data
 
 
+def near_limit(rng, data):
+    """Move the highest labels next to a limit of the dtype (order of the labels preserved).
+    8/16-bit: max, max-1, ...; uint8/uint16: just above the signed range; >= 32 bit: just above 2**16
+    (labels near 2**31 / 2**63 are not generated: the library's look-up tables have max_label + 1 entries)."""
+    labs = [int(v) for v in np.unique(data) if v != 0]
+    if not labs:
+        return data, None
+    dt = data.dtype
+    top = int(np.iinfo(dt).max)
+    k = int(rng.integers(1, min(3, len(labs)) + 1))
+    r = rng.random()
+    if dt.itemsize <= 2 and r < 0.5:
+        base, kind = top - k + 1, 'at_dtype_max'
+    elif dt.itemsize <= 2 and dt.kind == 'u' and top // 2 + 1 > max(labs):
+        base, kind = top // 2 + 1, 'above_signed_range'
+    elif dt.itemsize <= 2:
+        base, kind = top - k - int(rng.integers(0, 3)), 'below_dtype_max'
+    elif rng.random() < 0.5:
+        return data, None                   # (65k-entry tables make these cases slow: keep them rare)
+    else:
+        base, kind = 2 ** 16 + int(rng.integers(0, 3)), 'above_uint16'
+    if base <= max(labs[:-k] + [0]):
+        return data, None
+    out = data.copy()
+    for i, lab in enumerate(labs[-k:]):
+        out[data == lab] = base + i
+    return out, kind
+
+
+EDGES = ['top', 'bottom', 'left', 'right', 'corner_00', 'corner_0x', 'corner_y0', 'corner_yx']
+
+
+def edge_blob(rng, data):
+    """Add one small segment (new label) that touches exactly one chosen border / corner of the array."""
+    ny, nx = data.shape
+    labs = set(int(v) for v in np.unique(data))
+    top = int(np.iinfo(data.dtype).max)
+    new = next((v for v in range(1, min(top, 400) + 1) if v not in labs), None)
+    if new is None:
+        return data, None
+    side = EDGES[int(rng.integers(0, len(EDGES)))]
+    h, w = int(rng.integers(1, 3)), int(rng.integers(1, 3))
+    h, w = min(h, ny), min(w, nx)
+    ymid = int(rng.integers(0, ny - h + 1))
+    xmid = int(rng.integers(0, nx - w + 1))
+    y0, x0 = {'top': (0, xmid), 'bottom': (ny - h, xmid), 'left': (ymid, 0), 'right': (ymid, nx - w),
+              'corner_00': (0, 0), 'corner_0x': (0, nx - w), 'corner_y0': (ny - h, 0),
+              'corner_yx': (ny - h, nx - w)}[side]
+    out = data.copy()
+    out[y0:y0 + h, x0:x0 + w] = new
+    return out, side
+
+
 def scene(rng, n=None):
     """Noisy image with blended Gaussian pairs/triples (for detect/deblend)."""
     n = int(rng.integers(24, 37)) if n is None else n
